@@ -46,6 +46,7 @@ type history struct {
 	eol         string
 	shuffle     bool
 	chain       bool // every plain object refers to the next object number (/Next n 0 R)
+	damage      bool // one member of one object stream gets a header offset beyond the stream's data
 }
 
 func (h history) String() string {
@@ -213,6 +214,37 @@ func (h history) write(seed int64) ([]byte, map[string]int) {
 		}
 		if np > 0 {
 			rv.ObjStmMax = 1 + r.Intn(np)
+			if h.damage && np >= 2 && info["damaged"] == 0 {
+				// one container for this revision; the header entry of one member points
+				// behind the decoded data: that member cannot be read, its siblings can
+				// (only a tagged object is damaged, never the shared /Length object)
+				var cand []int
+				k := 0
+				for _, o := range objs {
+					if !o.Packed {
+						continue
+					}
+					if strings.HasPrefix(o.Key, "o") {
+						cand = append(cand, k)
+					}
+					k++
+				}
+				if len(cand) > 0 {
+					rv.ObjStmMax = np
+					v := cand[r.Intn(len(cand))]
+					k = 0
+					for _, o := range objs {
+						if !o.Packed {
+							continue
+						}
+						if k == v {
+							info["damaged"] = o.Num
+						}
+						k++
+					}
+					rv.Mutate = &pdfw.Mutation{Kind: "objstm-off", Cont: 0, Index: v, Rel: "bodylen", Value: int64(7 + r.Intn(50))}
+				}
+			}
 			for i := 0; i*rv.ObjStmMax < np; i++ {
 				rv.ObjStmNums = append(rv.ObjStmNums, alloc())
 			}
@@ -439,6 +471,13 @@ func runHistory(c *fw.Ctx, id string, h history, seed int64) {
 						}
 					}
 				}
+				if dn := info["damaged"]; dn != 0 && (o.n == dn || (h.chain && o.n < dn && (o.kind == "deep" || o.kind == "rsv-deep" || o.kind == "rsv-RD"))) {
+					// the member whose header entry is damaged (and deep resolutions that walk
+					// into it): whatever the lookup gives is not judged; the lookups of the
+					// other objects — before and after it, in any order — are
+					c.Count("lookups_of_a_damaged_object_stream_member", 1)
+					continue
+				}
 				c.Count("lookups_checked", 1)
 				want, defined := m[o.n]
 				if h.chain && (o.kind == "deep" || o.kind == "rsv-deep" || o.kind == "rsv-RD") && defined && want != "" {
@@ -538,7 +577,7 @@ func randomHistory(r *rand.Rand) history {
 			}
 			nums = append(nums, cur)
 		}
-		h := history{nums: nums, lenIndirect: r.Intn(2) == 0, eol: []string{"\n", "\r\n", "\r"}[r.Intn(3)], shuffle: r.Intn(2) == 0, chain: r.Intn(2) == 0}
+		h := history{nums: nums, lenIndirect: r.Intn(2) == 0, eol: []string{"\n", "\r\n", "\r"}[r.Intn(3)], shuffle: r.Intn(2) == 0, chain: r.Intn(2) == 0, damage: r.Intn(4) == 0}
 		live := make([]bool, n)
 		freed := make([]bool, n)
 		for ri := 0; ri < nr; ri++ {
